@@ -39,6 +39,9 @@ CHECKS = {
  "C16": ("runtime differential monitor: generated PEP 508 requirement strings parsed by the library and by pip's packaging; generated marker expressions observed through the PyPI resolver (edge present or not) against packaging's Marker.evaluate in the library's own target environment",
          "Exploration: name/extras/specifier/marker fields compared for every generated requirement packaging accepts; every marker (and/or/parentheses to depth 4 over all variables and operators, both operand orders, a sweep of single atoms) is placed on a dependency of a three-package universe and the resolver's decision compared with packaging's; the environment is read from the library by probing and cross-checked with env.gen.go.",
          "pip._vendor.packaging 21.3 is the oracle; atoms whose meaning differs between packaging generations are excluded and listed in evidence; one recorded divergence ('!=' with a post-release literal on the left, root cause in util/semver) is identified by a rewrite-and-re-resolve predicate.", "§6 C16"),
+ "C06": ("runtime invariant monitor on every graph returned by the npm resolver over generated universes, and on the final install tree handed out by hook H1 (build tag verif): requirement-to-edge matching, satisfaction (node-semver), completeness, reachability, reference pick, one-name-per-directory, Node's walk-up lookup",
+         "Exploration: every version of every generated universe (base, alias-collision and bundled strata) is resolved through a step-budgeted client and the returned graph plus install tree are checked against G1-G4/T1-T2; violating universes are shrunk before being reported.",
+         "node-semver adapter trusted after self-test; tree clauses only without bundled packages and outside the alias-collision stratum; resolutions exhausting the step budget belong to C04.", "§6 C06"),
 }
 NOT_YET = {}
 
